@@ -302,6 +302,143 @@ theorem skip_absent_noop (ns : List String) (cls : String) (attrs : List (String
   rw [skip_names_at_save ns cls attrs hw ha, roundtrip cls attrs hw]
   simp [stripA, habs]
 
+/-! ### skipping by type at save time -/
+
+/-- the exact-type test of `load` on a restored array / group value can only succeed when
+the saved value was an instance of that type -/
+theorem exactType_canon_isInstance (v : Val) (t : String) (hns : nsVal v ≠ .attr)
+    (h : exactType (canon v) t = true) : isInstance v t = true := by
+  cases v with
+  | scalar s => simp [nsVal] at hns
+  | npScalar dt s => simp [nsVal] at hns
+  | path p => simp [nsVal] at hns
+  | ndarray dt sh d => simpa [canon, exactType, isInstance] using h
+  | torch k c tok =>
+      cases k <;> simp [canon, exactType, isInstance] at h ⊢ <;> simp [h]
+  | fallback c tok => simpa [canon, exactType, isInstance] using h
+  | rawBytes p => simpa [canon, exactType, isInstance] using h
+  | npRng b => simpa [canon, exactType, isInstance] using h
+  | torchRng => simpa [canon, exactType, isInstance] using h
+  | pyLogger n l => simpa [canon, exactType, isInstance] using h
+  | list xs => simp only [canon] at h; split at h <;> simpa [exactType, isInstance] using h
+  | tuple xs => simp only [canon] at h; split at h <;> simpa [exactType, isInstance] using h
+  | set xs => simp only [canon] at h; split at h <;> simpa [exactType, isInstance] using h
+  | dict kvs => simpa [canon, exactType, isInstance] using h
+  | obj c a => simp [canon, exactType, isInstance] at h ⊢; simp [h]
+
+theorem isInstance_stripT (ts : List String) (v : Val) (t : String) :
+    isInstance (stripT ts v) t = isInstance v t := by
+  cases v <;> simp [stripT, isInstance]
+
+theorem nonobj_stripT (ts : List String) (v : Val) (h : isObj v = false) :
+    stripT ts v = v ∧ typeFree ts v = true := by
+  cases v <;> simp [isObj] at h <;> simp [stripT, typeFree]
+
+private theorem any_exact_false (ts : List String) (v : Val) (hns : nsVal v ≠ .attr)
+    (hfree : ts.any (isInstance v) = false) : ts.any (exactType (canon v)) = false := by
+  rw [List.any_eq_false] at hfree ⊢
+  intro t ht he
+  exact hfree t ht (exactType_canon_isInstance v t hns he)
+
+/-- loading a tree that holds no instance of the listed types, with those types in the skip
+list, is loading it without them -/
+theorem decode_skip_types_free (ts : List String) : ∀ (attrs : List (String × Val)),
+    wfAttrs attrs = true → attrNestedAttrs attrs = true → typeFreeAttrs ts attrs = true →
+    decodeAttrs ⟨[], ts⟩ (encodeAttrs {} attrs) = .ok (canonKvs attrs) ∧
+    dropTypes ts (canonKvs attrs) = canonKvs attrs := by
+  apply attrs_induction
+  · intro _ _ _; simp [encodeAttrs, decodeAttrs, canonKvs, dropTypes]
+  · intro k cls sub rest ih1 ih2 hw ha hf
+    have hw' : wfAttrs sub = true ∧ wfAttrs rest = true := by simpa [wfAttrs, wfA] using hw
+    have ha' : attrNestedAttrs sub = true ∧ attrNestedAttrs rest = true := by
+      simpa [attrNestedAttrs, attrNested] using ha
+    have hf' : ts.any (isInstance (.obj cls sub)) = false ∧ typeFreeAttrs ts sub = true ∧ typeFreeAttrs ts rest = true := by
+      simpa [typeFreeAttrs, typeFree, Bool.and_assoc] using hf
+    obtain ⟨i1a, i1b⟩ := ih1 hw'.1 ha'.1 hf'.2.1
+    obtain ⟨i2a, i2b⟩ := ih2 hw'.2 ha'.2 hf'.2.2
+    have hx := any_exact_false ts (.obj cls sub) (by simp [nsVal]) hf'.1
+    constructor
+    · simp [encodeAttrs, decodeAttrs, encode, decodeAttr, ftrue, fget, i1a, i1b, i2a, canonKvs, canon,
+        nsOf, nsVal, bind, Except.bind]
+    · simp only [canonKvs, dropTypes, List.filter_cons]
+      simp only [dropTypes] at i2b
+      simp [hx, i2b, nsVal]
+  · intro k v rest hno ih hw ha hf
+    have hw' : wfA v = true ∧ wfAttrs rest = true := by simpa [wfAttrs] using hw
+    have ha' : attrNested v = true ∧ attrNestedAttrs rest = true := by simpa [attrNestedAttrs] using ha
+    have hf' : ts.any (isInstance v) = false ∧ typeFree ts v = true ∧ typeFreeAttrs ts rest = true := by
+      simpa [typeFreeAttrs, Bool.and_assoc] using hf
+    obtain ⟨i2a, i2b⟩ := ih hw'.2 ha'.2 hf'.2.2
+    constructor
+    · simp [encodeAttrs, decodeAttrs, decodeAttr_skip_irrelevant _ v hno, roundtrip_attr v hw'.1, i2a,
+        canonKvs, bind, Except.bind, nsOf_encode]
+    · simp only [canonKvs, dropTypes, List.filter_cons]
+      simp only [dropTypes] at i2b
+      by_cases hns : nsVal v = .attr
+      · simp [hns, i2b]
+      · have hx := any_exact_false ts v hns hf'.1
+        simp [hx, i2b]
+
+/-- skipping types at save time writes exactly the tree of the stripped graph -/
+theorem encodeAttrs_skip_types (ts : List String) : ∀ attrs, attrNestedAttrs attrs = true →
+    encodeAttrs ⟨[], ts⟩ attrs = encodeAttrs {} (stripTAttrs ts attrs) := by
+  apply attrs_induction
+  · intro _; simp [encodeAttrs, stripTAttrs]
+  · intro k cls sub rest ih1 ih2 h
+    have h' : attrNestedAttrs sub = true ∧ attrNestedAttrs rest = true := by
+      simpa [attrNestedAttrs, attrNested] using h
+    by_cases hk : ts.any (isInstance (.obj cls sub)) = true
+    · simp [encodeAttrs, stripTAttrs, hk, ih2 h'.2]
+    · simp [encodeAttrs, stripTAttrs, hk, ih2 h'.2, encode, ih1 h'.1, stripT]
+  · intro k v rest hno ih h
+    have hf := nonobj_facts [] v hno
+    have h' : noObj v = true ∧ attrNestedAttrs rest = true := by
+      rw [← hf.1]; simpa [attrNestedAttrs] using h
+    by_cases hk : ts.any (isInstance v) = true
+    · simp [encodeAttrs, stripTAttrs, hk, ih h'.2]
+    · simp [encodeAttrs, stripTAttrs, hk, ih h'.2, (nonobj_stripT ts v hno).1, (encode_noObj ⟨[], ts⟩).1 v h'.1]
+
+theorem stripT_facts (ts : List String) : ∀ attrs, wfAttrs attrs = true → attrNestedAttrs attrs = true →
+    wfAttrs (stripTAttrs ts attrs) = true ∧ attrNestedAttrs (stripTAttrs ts attrs) = true ∧
+    typeFreeAttrs ts (stripTAttrs ts attrs) = true := by
+  apply attrs_induction
+  · intro _ _; simp [stripTAttrs, wfAttrs, attrNestedAttrs, typeFreeAttrs]
+  · intro k cls sub rest ih1 ih2 hw ha
+    have hw' : wfAttrs sub = true ∧ wfAttrs rest = true := by simpa [wfAttrs, wfA] using hw
+    have ha' : attrNestedAttrs sub = true ∧ attrNestedAttrs rest = true := by
+      simpa [attrNestedAttrs, attrNested] using ha
+    obtain ⟨a1, a2, a3⟩ := ih1 hw'.1 ha'.1
+    obtain ⟨b1, b2, b3⟩ := ih2 hw'.2 ha'.2
+    by_cases hk : ts.any (isInstance (.obj cls sub)) = true
+    · simp [stripTAttrs, hk, b1, b2, b3]
+    · have hk' : ts.any (isInstance (stripT ts (.obj cls sub))) = false := by
+        simpa [isInstance_stripT] using hk
+      simp only [stripT] at hk'
+      simp [stripTAttrs, hk, wfAttrs, wfA, attrNestedAttrs, attrNested, typeFreeAttrs, typeFree, stripT,
+        a1, a2, a3, b1, b2, b3, hk']
+  · intro k v rest hno ih hw ha
+    have hw' : wfA v = true ∧ wfAttrs rest = true := by simpa [wfAttrs] using hw
+    have ha' : attrNested v = true ∧ attrNestedAttrs rest = true := by simpa [attrNestedAttrs] using ha
+    obtain ⟨b1, b2, b3⟩ := ih hw'.2 ha'.2
+    have hs := nonobj_stripT ts v hno
+    by_cases hk : ts.any (isInstance v) = true
+    · simp [stripTAttrs, hk, b1, b2, b3]
+    · simp [stripTAttrs, hk, wfAttrs, attrNestedAttrs, typeFreeAttrs, hs.1, hs.2, hw'.1, ha'.1, b1, b2, b3]
+
+/-- **C14 clause — types skipped at save time**: the loaded object is the graph with every
+attribute that is an instance of a listed type removed (at every attribute-nested level);
+the type list recorded in the file removes nothing more at load time, and every other
+attribute loads as it would without skipping -/
+theorem skip_types_at_save (ts : List String) (cls : String) (attrs : List (String × Val))
+    (hw : wfA (.obj cls attrs) = true) (ha : attrNested (.obj cls attrs) = true) :
+    load {} (save ⟨[], ts⟩ (.obj cls attrs)) = .ok (canon (stripT ts (.obj cls attrs))) := by
+  have hw' : wfAttrs attrs = true := by simpa [wfA] using hw
+  have ha' : attrNestedAttrs attrs = true := by simpa [attrNested] using ha
+  have h1 := encodeAttrs_skip_types ts attrs ha'
+  obtain ⟨f1, f2, f3⟩ := stripT_facts ts attrs hw' ha'
+  obtain ⟨h2, h3⟩ := decode_skip_types_free ts (stripTAttrs ts attrs) f1 f2 f3
+  simp [load, save, encode, fget, h1, h2, h3, canon, stripT, bind, Except.bind, filter_true_eq]
+
 /-! ### non-vacuity -/
 private def sample : Val :=
   .obj "SA" [("count", .scalar (.int 5)), ("arr", .ndarray "float64" [2] [.float 0, .float 1]),
@@ -309,6 +446,7 @@ private def sample : Val :=
         ("l", .list [.scalar (.str "count"), .dict [("count", .scalar (.int 3))]])])]
 
 example : wfA sample = true ∧ attrNested sample = true := by decide
+example : stripT ["int", "SB"] sample = .obj "SA" [("arr", .ndarray "float64" [2] [.float 0, .float 1])] := by rfl
 example : stripA ["count", "zz"] sample =
     .obj "SA" [("arr", .ndarray "float64" [2] [.float 0, .float 1]),
       ("child", .obj "SB" [("flag", .scalar (.bool true)),
